@@ -31,7 +31,7 @@ LEVEL_TEXT = (
     "Exploration: scripted log sequences at every emission site were run over pipe, HTTP and capped HTTP and compared "
     "message by message with the on_log deliveries (count, order, level, text, extras, position relative to returned "
     "data); a hand-written peer sent log batches with arbitrary metadata in every response position of unary, producer "
-    "and exchange calls over a pipe and over HTTP.  Held means no discrepancy / no failed call on the executions counted."
+    "and exchange calls over a pipe and over HTTP.  Scripts include steps that log after their data emit and then fail, and exchange inputs refused by the server after a logged turn. Held means no discrepancy / no failed call on the executions counted."
 )
 LEVEL_NOTE = "a log is identified by a sequence number placed in its text or in an extra; pyarrow IPC framing trusted"
 CATEGORY = "exploration"
